@@ -7,7 +7,8 @@ from concurrent.futures import ThreadPoolExecutor
 ROOT = os.path.dirname(os.path.dirname(os.path.abspath(__file__)))
 tier = sys.argv[1] if len(sys.argv) > 1 else "quick"
 ids = sys.argv[2:] or sorted(os.listdir(os.path.join(ROOT, "seeded")))
-EXTRA = {"C06-B": ["C03", "C13"], "C13-A": ["C04"], "C17-B": ["C04", "C13"], "C01-A": [], "C04-A": ["C13", "C17"]}
+EXTRA = {"C06-B": ["C03", "C13"], "C13-A": ["C04"], "C17-B": ["C04", "C13"], "C01-A": [], "C04-A": ["C13", "C17"],
+         "C17-C": ["C03", "C13"], "C03-D": ["C15"], "C13-C": ["C03"], "C02-C": ["C12", "C18"], "C07-D": ["C12"], "C17-D": ["C16"]}
 
 def one(sid):
     prop = sid.split("-")[0]
